@@ -149,7 +149,17 @@ def eval_case(case):
     m = case['m']
     I = 4 * np.pi * np.arange(M) / M
     if kind == 'on':
+        # judged: the table returned by a second call, after the first result was emptied by the caller; the obliquity array must be untouched
+        I0 = I.copy()
+        first = mod.calc_inclination(I)
+        try:
+            first.clear()
+        except Exception:
+            pass
         tab = mod.calc_inclination(I)
+        if not np.array_equal(I, I0):
+            viol.append({'key': f'inclination-input-modified-l{l}', 'desc': f'calc_inclination (l={l}) changed the obliquity array passed by the caller'})
+            I = I0.copy()
         present_m = sorted(int(k[1]) for k in tab.keys() if int(k[0]) == m)
         worst = 0.
         for p in range(l + 1):
